@@ -28,7 +28,6 @@ RULE = (
 )
 ASSUMPTIONS = [
     "undo is given exactly the forward pass's salt and options",
-    "IPv6 tokens with an IPv4-style tail are not generated here while known finding C06/v6-with-v4-tail is open (counted in excluded_domain)",
 ]
 
 
@@ -231,7 +230,7 @@ def _file_case(draw, max_lines=4, modes=("default", "empty", "list", "nested")):
 
     lines = []
     for _ in range(draw(st.integers(1, max_lines))):
-        tl = draw(G.token_line(cfg=cfg, allow_v4tail=False, special4=st.sampled_from(MASKS)))
+        tl = draw(G.token_line(cfg=cfg, allow_v4tail=True, special4=st.sampled_from(MASKS)))
         segs = tl["segs"]
         if draw(st.integers(0, 5)) == 0:
             # an address whose image is mask shaped (resolved at check time with the real code)
